@@ -435,6 +435,10 @@ class Parser:
             return True
         return False
 
+    def __near(self, text: bytes) -> str:
+        """Return the character found at the current position."""
+        return text[self.lexer.pos : self.lexer.pos + 1].decode("utf-8", "replace")
+
     def parse(self, text: bytes) -> bool:
         """The parser entry point.
 
@@ -469,7 +473,7 @@ class Parser:
                             msg = "{} found while {} expected near '{}'".format(
                                 ttype,
                                 "|".join(self.__expected),
-                                text.decode()[self.lexer.pos],
+                                self.__near(text),
                             )
                         else:
                             msg = "%s found while %s expected at end of file" % (
@@ -481,8 +485,8 @@ class Parser:
 
                 if not self.__command(ttype, tvalue):
                     msg = "unexpected token '%s' found near '%s'" % (
-                        tvalue.decode(),
-                        text.decode()[self.lexer.pos],
+                        tvalue.decode("utf-8", "replace"),
+                        self.__near(text),
                     )
                     raise ParseError(msg)
             if self.__expected_brackets:
@@ -493,7 +497,9 @@ class Parser:
                     % "|".join(self.__expected)
                 )
 
-        except (ParseError, CommandError) as e:
+        except (ParseError, CommandError, UnicodeDecodeError) as e:
+            if isinstance(e, UnicodeDecodeError):
+                e = ParseError("invalid UTF-8 sequence")
             self.error_pos = (
                 self.lexer.curlineno(),
                 self.lexer.curcolno(),
